@@ -33,7 +33,7 @@ CODES = {
     'C14': {8},
     'C16': {11},
     'C15': {8},
-    'C04': {2, 3, 22, 23, 24, 5, 6, 7},        # not 4: an upstream element's acceleration feeds nothing the output trajectory depends on
+    'C04': {1, 2, 3, 22, 23, 24, 5, 6, 7},     # 1: the trajectory is (time, speed, position); not 4: an upstream element's acceleration feeds nothing the output trajectory depends on
 }
 ERR_KEYWORDS = {
     'C01': ['angular_position', 'angular_speed', 'angular_acceleration', 'transmit'],
